@@ -25,6 +25,16 @@ TABLE = {
             "Held on the generated gap-pattern cases: every event (kind, bytes, offset, line number, separators, final byte count) equals the model's, under slice, tiny-buffer reader and a third strategy, and in rg's text output.",
             "The per-line match verdicts come from the C01 oracle; context kind is left open where a line is both after- and before-context.",
             "DESIGN.md §3 C03"),
+    "C06": (True, "exploration",
+            "runtime monitoring: entries recorded from WalkBuilder::build(), from build_parallel() at several thread counts, and from an independent std::fs recursion, compared as multisets on generated trees and option combinations",
+            "Held on the generated trees x option combinations: serial and parallel walkers yielded identical duplicate-free (path, depth) multisets, equal to the independent listing where no ignore rules are involved, and link cycles produced loop errors while the walk ended.",
+            "Error entries compared only through the loop requirement; same_file_system cannot be exercised across devices in this sandbox (single file system) although its code path runs.",
+            "DESIGN.md §3 C06"),
+    "C07": (True, "exploration",
+            "runtime monitoring under a controlled scheduler: the ignore verif-hooks yield points park every worker, a seeded policy (uniform / PCT / starvation) releases one at a time; visitor log checked for exactly-once / no-duplicates, hook trace checked for bounded progress and a livelock signature; plus real-thread stress with injected delays, ThreadSanitizer and Miri legs in the thorough tier",
+            "Held on the scheduled interleavings explored (the evidence reports the number of distinct schedules, steals, idle transitions and quit-while-work-queued situations observed): no entry lost or duplicated, every walk ended within the step bound, also with Quit injected at each visit index.",
+            "Liveness restated as bounded progress under fair seeded schedules; hook granularity; not exhaustive over schedules (no model checking).",
+            "DESIGN.md §3 C07, §5"),
     "C11": (True, "exploration",
             "runtime monitoring of the built RegexMatcher's promises (line_terminator, non_matching_bytes, find_candidate_line, is_match) against a reference engine on language-directed and exhaustive small-alphabet lines; the two grep-regex HIR hooks steer the sampler",
             "No witness found among the lines produced: terminator never inside a match, language over terminator-free lines unchanged, declared non-matching bytes never inside a match, candidate search never passes over a matching line; patterns requiring the terminator were rejected. The 'over ALL lines' quantifier is only approximated (see level_note).",
